@@ -179,7 +179,7 @@ func calls(s *vdrv.Scenario, h *vdrv.History) []*call {
 	for i, e := range h.Events {
 		key := [2]int{e.T, e.K}
 		if !e.Ret {
-			c := &call{t: e.T, k: e.K, op: s.Threads[e.T][e.K], inv: i, ret: -1}
+			c := &call{t: e.T, k: e.K, op: s.Op(e.T, e.K), inv: i, ret: -1}
 			m[key] = c
 			cs = append(cs, c)
 		} else {
